@@ -26,7 +26,9 @@ VARIABLES plan,   \* sequence of probes [r, when, at]
           bad,    \* violations predicted so far: <<inv, r, inst, nth>>
           fin     \* behaviour complete
 
-gvars == <<vars, plan, deep, tmo, pi, hist, bad, fin>>
+VARIABLE usr      \* the task has a `user` configured (TaskCommandInfo.user): a configuration the model does not depend on
+
+gvars == <<vars, plan, deep, tmo, usr, pi, hist, bad, fin>>
 
 Rank(w) == CASE w \in {"launching", "starting"} -> 0
              [] w \in {"nochild", "polling"} -> 1
@@ -160,24 +162,27 @@ GenInit ==
                ELSE {FALSE})
   /\ deep \in (IF kind = "ctl" /\ beh \notin {"noready", "stuck", "midstate"} THEN BOOLEAN ELSE {FALSE})
   /\ tmo \in (IF kind = "ctl" /\ beh \in {"noready", "stuck"} /\ Len(plan) = 0 THEN {TRUE} ELSE {FALSE})
+  \* stop / kill of a running child, once more for a task with a configured user
+  /\ usr \in (IF Len(plan) = 1 /\ plan[1].when = "running" /\ plan[1].r \in {"STOP", "Kill"}
+                 /\ (kind # "ctl" \/ (~deep /\ beh \in {"sleep", "fork"})) THEN BOOLEAN ELSE {FALSE})
   /\ pi = 1 /\ hist = <<>> /\ bad = {} /\ fin = FALSE
 
 GenStep ==
   /\ ~fin
   /\ LET c == Choice(S) IN
      IF c.a = "none" \/ c.succ = {}
-       THEN fin' = TRUE /\ UNCHANGED <<vars, plan, deep, tmo, pi, hist, bad>>
+       THEN fin' = TRUE /\ UNCHANGED <<vars, plan, deep, tmo, usr, pi, hist, bad>>
        ELSE \E t \in c.succ :
               /\ Set(t)
               /\ hist' = Append(hist, [a |-> IF c.a = "Probe" THEN "Req" ELSE c.a, r |-> c.r])
               /\ pi' = IF c.a = "Probe" THEN pi + 1 ELSE pi
               /\ bad' = bad \cup ViolOf(t)
-              /\ UNCHANGED <<plan, deep, tmo, fin>>
+              /\ UNCHANGED <<plan, deep, tmo, usr, fin>>
 
 GenSpec == GenInit /\ [][GenStep]_gvars
 
 Complete == fin /\ pi > Len(plan)
 PrintScn ==
-  Complete => PrintT(<<"SCN", [kind |-> kind, beh |-> beh, hold |-> hold, deep |-> deep, plan |-> plan,
+  Complete => PrintT(<<"SCN", [kind |-> kind, beh |-> beh, hold |-> hold, deep |-> deep, usr |-> usr, plan |-> plan,
                                hist |-> hist, bad |-> bad, exec |-> exec, sent |-> sent]>>)
 =============================================================================
